@@ -193,6 +193,20 @@ def r5(ctx, fs):
     rid = 'C19.R5'
     ctx.rule(rid, 'executor: every lra_theory::set / set_lb / set_ub whose failure is handled locally is followed by swap_conflict(lra) and backtrack_analyze_and_backjump(), whose failure throws execution_exception; '
                   'propagate_bounds reports the failure to its caller after swap_conflict; failure(atoms) pushes lit(sigma,false) of every atom and throws unless back-jump and solve() succeed', floor=8)
+    # what the executor freezes with: set(x, v, p) imposes BOTH bounds (it fails as soon as one of them does), set_lb / set_ub the bound of their name
+    LRA = 'smt::lra_theory::'
+    want = {'set': ('&&', ('mcall', LRA + 'set_lb', 'this', '$p0', '$p1', '$p2'), ('mcall', LRA + 'set_ub', 'this', '$p0', '$p1', '$p2')),
+            'set_lb': ('mcall', LRA + 'assert_lower', 'this', '$p0', '$p1', '$p2'), 'set_ub': ('mcall', LRA + 'assert_upper', 'this', '$p0', '$p1', '$p2')}
+    for nm, w in want.items():
+        g = fs.fn(LRA + nm)
+        genv = LocalEnv(g)
+        genv.param_roles(['$p0', '$p1', '$p2'])
+        rets = [canon(r['c'][0], genv, subst=False) for r in g.nodes() if r.get('k') == 'ReturnStmt' and r.get('c')]
+        okb = len(rets) == 1 and rets[0] == w
+        ctx.instance(rid, [g.id, 'bound-setter'], {'function': g.id, 'returns': [show(r) for r in rets], 'ok': okb})
+        if not okb:
+            ctx.finding(rid, g.id, 'bound-setter', 'lra_theory::%s must be %s (found %s): the executor freezes started / ended atoms with it, a bound that is not imposed lets an executed atom move' % (
+                nm, show(w), [show(r) for r in rets]), loc=g.loc, expect=show(w))
     for f in fs.defined():
         if f.get('class') != 'ratio::executor':
             continue
